@@ -1,0 +1,184 @@
+//go:build verif
+
+// Contracts for package manager, checked by /verif/gvc (comment-only file,
+// compiled only under the build tag "verif").
+package manager
+
+// The completion signal of a target's monitoring goroutine: closing it publishes that
+// the target's last session has been reset (no callback follows). The fact is stable
+// for as long as the name is not added again, which needs the manager lock that Remove
+// holds while it waits.
+//@ flagchan target.finished signals Finished
+//@ pred Finished(t *target) := !inSession[t.name]
+// The target table is only touched under Manager.mu; every entry is a complete record
+// filed under its own name, and a name that is not managed has no open session.
+//@ monitor Manager.mu protects targets invariant MgrInv
+//@ pred MgrInv(m *Manager) := m.targets != nil && (forall k string :: has(m.targets, k) ==> m.targets[k] != nil && m.targets[k].cancel != nil && m.targets[k].finished != nil && m.targets[k].name == k)
+//@   && (forall k string :: !has(m.targets, k) ==> !inSession[k])
+//@ pred Wired(m *Manager) := Callbacks(m) && m.connectionManager != nil && subscribeClient != nil
+//@ monitor target.mu protects reconnect
+
+// ---- the callback trace ----------------------------------------------------------
+// inSession[name]: a Connect has been reported for name and the Reset ending that
+// session has not. connectsN / resetsN count the Connect / Reset callbacks per name.
+//@ ghost inSession gmap[string]bool
+//@ ghost connectsN gmap[string]int
+//@ ghost resetsN gmap[string]int
+//@ pred Callbacks(m *Manager) := m != nil && m.connect != nil && m.reset != nil && m.update != nil && m.sync != nil && m.testSync != nil
+
+// Connect is reported only outside a session; updates and syncs only inside one.
+//@ func field Manager.connect (name)
+//@   requires [connect-only-after-the-previous-session-was-reset C13] !inSession[name]
+//@   effect inSession := upd(inSession, name, true)
+//@   effect connectsN := upd(connectsN, name, connectsN[name] + 1)
+//@ func field Manager.reset (name)
+//@   effect inSession := upd(inSession, name, false)
+//@   effect resetsN := upd(resetsN, name, resetsN[name] + 1)
+//@ func field Manager.update (name, n)
+//@   requires [update-only-inside-a-session C13] inSession[name]
+//@ func field Manager.sync (name)
+//@   requires [sync-only-inside-a-session C13] inSession[name]
+//@ func field Manager.testSync
+//@ func field Manager.connectError (name, err)
+//@ func field Manager.monitorError (name, err)
+//@   note the callbacks are assumed not to touch the manager
+
+//@ func (*Manager).handleGNMIUpdate
+//@   props C13 C12
+//@   requires Callbacks(m) && resp != nil && inSession[name]
+//@   requires resp.Response != nil ==> payload(resp.Response) != nil
+
+// One stream: Connect exactly once, after the first message; every message is
+// handed on inside the session, in stream order; the stream ends only with an error
+// from Recv, and then exactly one Reset is reported before returning.
+//@ func (*Manager).handleUpdates
+//@   props C13 C12
+//@   requires Callbacks(m) && ta != nil && sc != nil && ctx != nil && !inSession[ta.name]
+//@   modifies ghost inSession, ghost connectsN, ghost resetsN, ghost sendTimerArmed
+//@   invariant 0: resetsN == old(resetsN) && inSession[ta.name] == connected && connectsN[ta.name] == old(connectsN[ta.name]) + ite(connected, 1, 0)
+//@     && (forall k string :: k != ta.name ==> inSession[k] == old(inSession[k]) && connectsN[k] == old(connectsN[k]))
+//@   ensures [stream-ends-only-on-error C13] res0 != nil
+//@   ensures [exactly-one-reset-ends-the-stream C13] resetsN[ta.name] == old(resetsN[ta.name]) + 1 && !inSession[ta.name]
+//@   ensures [at-most-one-connect C13] connectsN[ta.name] <= old(connectsN[ta.name]) + 1
+//@   ensures [other-targets-untouched C13] forall k string :: k != ta.name ==> inSession[k] == old(inSession[k]) && connectsN[k] == old(connectsN[k]) && resetsN[k] == old(resetsN[k])
+
+// The receive-timeout watchdog only forces a reconnect.
+//@ func (*Manager).handleUpdates$1
+//@   props C13 C12
+//@   requires m != nil && ta != nil && ctx != nil && recvTimer != nil
+
+//@ func (*Manager).subscribe
+//@   props C13 C12
+//@   requires Callbacks(m) && ta != nil && ctx != nil && !inSession[ta.name] && subscribeClient != nil
+//@   modifies ghost inSession, ghost connectsN, ghost resetsN, ghost sendTimerArmed
+//@   ensures [session-closed-on-return C13] !inSession[ta.name]
+//@   ensures [other-targets-untouched C13] forall k string :: k != ta.name ==> inSession[k] == old(inSession[k])
+
+//@ func global subscribeClient (ctx, conn)
+//@   ensures res1 == nil ==> res0 != nil
+
+// Remove cancels the target's context and waits, holding the manager lock, until the
+// monitoring goroutine has finished; only then is the entry forgotten.
+//@ func (*Manager).Remove
+//@   props C13 C12
+//@   locks m
+//@   requires m != nil
+//@   assert at builtin delete#0: [forgotten-only-after-the-monitor-finished C13] wheld(m.mu) && closed(t.finished)
+//@   assert at call field target.cancel#0: [cancelled-under-the-lock C13] wheld(m.mu)
+//@   ensures [unknown-target-refused C13] !old(has(m.targets, name)) ==> res0 != nil
+//@   ensures [removed C13] old(has(m.targets, name)) ==> res0 == nil && !has(m.targets, name)
+//@   ensures [others-kept C13] forall k string :: k != name ==> (has(m.targets, k) <==> old(has(m.targets, k))) && m.targets[k] == old(m.targets[k])
+//@ func field target.cancel
+//@ func field target.reconnect
+
+// Add refuses an empty name, a nil request, a target without addresses and a name that
+// is already managed; otherwise it files a fresh record and starts exactly one monitor.
+//@ func (*Manager).Add
+//@   props C13 C12
+//@   locks m
+//@   requires Wired(m)
+//@   assert at go (*Manager).retryMonitor#0: [one-monitor-per-new-record C13] wheld(m.mu) && !old(has(m.targets, name)) && m.targets[name] == ta && fresh(ta) && !closed(ta.finished)
+//@   ensures [duplicate-refused C13] old(has(m.targets, name)) ==> res0 != nil && m.targets[name] == old(m.targets[name]) && spawns() == old(spawns())
+//@   ensures [bad-arguments-refused C13] name == "" || sr == nil ==> res0 != nil && spawns() == old(spawns())
+//@   ensures [added C13] res0 == nil ==> has(m.targets, name) && m.targets[name] != nil && m.targets[name].name == name && spawns() == old(spawns()) + 1
+//@   ensures [others-kept C13] forall k string :: k != name ==> (has(m.targets, k) <==> old(has(m.targets, k))) && m.targets[k] == old(m.targets[k])
+
+//@ func (*Manager).targetRecvTimeout
+//@   props C13 C12
+//@   requires m != nil
+
+//@ func (*Manager).Reconnect
+//@   props C13 C12
+//@   locks m
+//@   locks m.targets[name]
+//@   requires m != nil
+//@   ensures [unknown-target-refused C13] !old(has(m.targets, name)) ==> res0 != nil
+
+//@ func (*Manager).reconnectCtx
+//@   props C13 C12
+//@   locks t
+//@   requires m != nil && t != nil && ctx != nil
+//@   ensures res0 != nil
+
+//@ func NewManager
+//@   props C13 C12
+//@   ensures res1 == nil ==> res0 != nil && fresh(res0) && res0.targets != nil && res0.testSync != nil
+
+// ---- connection metadata (no-panic only) -------------------------------------------
+//@ func addrChains
+//@   props C13 C12
+//@   invariant 0: fresh(ac) && len(ac) == len(addrs)
+//@   ensures len(res0) == len(addrs)
+//@ func gRPCMeta
+//@   props C13 C12
+//@   requires ctx != nil
+//@ func iface CredentialsClient.Lookup (ctx, key)
+//@   note credential lookups are assumed not to touch the manager
+
+//@ func uniqueNextHops
+//@   props C13 C12
+//@   ensures res0 != nil
+
+// createConn tries the next hops until one connection request succeeds; whatever it
+// returns, the release function is non-nil (monitor defers it unconditionally).
+//@ func (*Manager).createConn
+//@   props C13 C12 C16
+//@   requires m != nil && ctx != nil && m.connectionManager != nil
+//@   invariant 0: (forall k string :: !has($visited, k)) || err != nil
+//@   ensures [release-function-never-nil C16] res2 == nil ==> res1 != nil
+//@ func iface ConnectionManager.Connection (ctx, addr, dialer)
+//@   ensures res1 != nil
+//@   note every ConnectionManager is assumed to return a non-nil release function (connection.Manager does: verified in package connection)
+
+// One connection attempt: the session discipline of the stream it may open, and the
+// connection released exactly once when the attempt ends.
+//@ func (*Manager).monitor
+//@   props C13 C12 C16
+//@   requires Wired(m) && ta != nil && ctx != nil && !inSession[ta.name]
+//@   modifies ghost inSession, ghost connectsN, ghost resetsN, ghost sendTimerArmed
+//@   ensures [session-closed-on-return C13] !inSession[ta.name]
+//@   ensures [other-targets-untouched C13] forall k string :: k != ta.name ==> inSession[k] == old(inSession[k])
+// The release function createConn hands on (a connection manager's done function).
+//@ func result (*Manager).createConn
+//@   note release functions are assumed not to touch the manager or the callback trace
+//@ func (*Manager).monitor$1
+//@   props C13 C12
+//@   requires m != nil && ta != nil
+
+// The retry loop: every attempt starts outside a session and ends outside one, so a
+// Connect is always preceded by the Reset of the previous session; the loop ends only
+// when the target's context is cancelled, and the completion signal is given exactly
+// once, after the last callback of the last attempt.
+//@ func (*Manager).retryMonitor
+//@   props C13 C12
+//@   requires Wired(m) && ta != nil && ctx != nil && !inSession[ta.name]
+//@   requires ta.finished != nil && !closed(ta.finished) && !isctxdone(ta.finished)
+//@   modifies ghost inSession, ghost connectsN, ghost resetsN, ghost sendTimerArmed, closed(ta.finished)
+//@   invariant 0: [attempts-start-and-end-outside-a-session C13] !inSession[ta.name] && !closed(ta.finished) && sCtx != nil && timer != nil
+//@     && (forall k string :: k != ta.name ==> inSession[k] == old(inSession[k]))
+//@   ensures [finished-signalled-after-the-last-callback C13] closed(ta.finished) && !inSession[ta.name]
+//@ func (*Manager).retryMonitor$1
+//@   props C13 C12
+//@   requires m != nil && ta != nil && timer != nil && ta.finished != nil && !closed(ta.finished) && !inSession[ta.name]
+//@   modifies closed(ta.finished), ghost sendTimerArmed
+//@   ensures closed(ta.finished)
